@@ -128,7 +128,7 @@ func (x *Exec) mathBinop(st *State, op token.Token, a, b Value, resT types.Type,
 	}
 	l, r = toInt(a), toInt(b)
 	over := func(t *Term) {
-		if x.Opt.Overflow && x.specMode == 0 {
+		if x.Opt.Overflow && x.specMode == 0 && pos.IsValid() {
 			lim := c.bigInt(pow2(63))
 			x.addObl(st, "overflow", "", c.And(c.IntCmp(">=", t, c.IntBin("-", c.IntLit(0), lim)), c.IntCmp("<", t, lim)), pos, "int arithmetic stays within 64 bits")
 		}
